@@ -330,7 +330,40 @@ def r4(ctx):
             else:
                 ctx.bad('CompoundSkyRegion.contains', 'components', f'is {tt[:300]}', c.methods['contains'].loc())
         else:
-            ctx.ok(f'{c.name}.contains', 'constant (decided by C01.R3/R4)')
+            # a family that answers without its pixel image (points, lines, text contain nothing): the answer must still
+            # be the pixel image's answer for the converted positions — in particular have the shape of the query
+            pci = m.cls(c.name.replace('SkyRegion', 'PixelRegion'))
+            ctx.need(pci is not None and m.method(pci, 'contains') is not None, f'{c.name}.contains', 'pixel counterpart not found')
+
+            def answer(ci_, qcls, qname):
+                e = Evaluator(m)
+                inst = e.symbolic_instance(ci_)
+                q = Obj(qcls, {}, qname)
+                args = [inst, q] + ([WCS] if qcls == 'SkyCoord' else [])
+                out = e.run(m.method(ci_, 'contains'), args, {})
+                return sorted((show(e.conj(pc), 400), show(v, 600)) for pc, v in out.returns)
+
+            def norm_q(rows, qname):
+                out = []
+                for pc, v in rows:
+                    for a, b in ((f'attr:shape(attr:x({qname}))', 'SHAPE(Q)'), (f'attr:shape({qname}.x)', 'SHAPE(Q)'),
+                                 (f'attr:shape({qname})', 'SHAPE(Q)'),
+                                 (f'attr:isscalar({qname})', 'ISSCALAR(Q)')):
+                        pc, v = pc.replace(a, b), v.replace(a, b)
+                    out.append((pc, v))
+                return sorted(out)
+            ts = answer(c, 'SkyCoord', 'skycoord')
+            tp = answer(pci, 'PixCoord', 'pixcoord')
+            if not any('skycoord' in v or 'skycoord' in pc for pc, v in ts):
+                ctx.bad(f'{c.name}.contains', 'answer-shape',
+                        f'{c.name}.contains returns {sorted({v for _, v in ts})} whatever positions are asked about: for an array of '
+                        f'sky positions the answer is one scalar, while the pixel image ({pci.name}.contains of the converted '
+                        'positions) answers with an array of the positions\' shape', c.methods['contains'].loc())
+            elif norm_q(ts, 'skycoord') == norm_q(tp, 'pixcoord'):
+                ctx.ok(f'{c.name}.contains', 'the same answer term as its pixel image (shape of the query, include sense)')
+            else:
+                raise AnalysisError('C06.R4', f'{c.name}.contains', 'override depends on the query but is not the pixel image\'s '
+                                    f'term: {ts} vs {tp}')
 
 
 RULES = [
@@ -338,5 +371,5 @@ RULES = [
     RuleDef('R2', 'class pairing and field completeness', r2, 22),
     RuleDef('R3', 'conversions carry fresh copies of meta/visual', r3, 22),
     RuleDef('R3b', 'every region constructor stores the meta/visual it is given', r3b, 23),
-    RuleDef('R4', 'sky membership is defined via the pixel image', r4, 2),
+    RuleDef('R4', 'sky membership is the pixel image\'s answer (delegation, or the same answer term for point/line/text)', r4, 4),
 ]
